@@ -46,12 +46,12 @@ class Unif:
     def getattr(self, ex, st, name):
         if name == "uniform_":
             return Fn(model=lambda ex, st, a, k: self, name=name)
-        if name == "gt":
-            def gt(ex, st, a, k):
+        if name in ("gt", "ge"):
+            def cmp(ex, st, a, k, name=name):
                 u = z3.Real(fresh_name("u"))
                 st.assume(z3.And(u >= 0, u < 1))
-                return u > z3ify(a[0])
-            return Fn(model=gt, name="gt")
+                return (u > z3ify(a[0])) if name == "gt" else (u >= z3ify(a[0]))
+            return Fn(model=cmp, name=name)
         raise Undecided(f"tensor method {name}")
 
 
@@ -78,6 +78,9 @@ def vec_getattr(self, ex, st, name):
         return Fn(model=masked_fill, name=name)
     if name == "bool":
         return Fn(model=lambda ex, st, a, k: Vec(self.n, self.arr, self.label), name=name)     # non-zero test happens in masked_fill
+    if name == "logical_not":
+        kk = z3.Int("k!ln")
+        return Fn(model=lambda ex, st, a, k: Vec(self.n, z3.Lambda([kk], z3.If(self.arr[kk] != 0, z3.RealVal(0), z3.RealVal(1))), self.label + ".not"), name=name)
     if name in ("device", "dtype"):
         return Opaque(name)
     if name == "clip":
@@ -94,6 +97,15 @@ def vec_getattr(self, ex, st, name):
 
 
 Vec.getattr = vec_getattr
+
+
+def vec_invert(self, ex, st):
+    """~bool_tensor: element-wise logical not (non-zero -> 0, zero -> 1)"""
+    kk = z3.Int("k!inv")
+    return Vec(self.n, z3.Lambda([kk], z3.If(self.arr[kk] != 0, z3.RealVal(0), z3.RealVal(1))), self.label + ".not")
+
+
+Vec.invert = vec_invert
 
 
 def legal(result, mask):
@@ -137,7 +149,8 @@ def build(tier):
                requires=["0 <= epsilon", "epsilon <= 1"], frame_fields=False,
                ghost_after={"use_policy = ": ["up = use_policy"]}, ghost={"up": "True"},
                ensures=["legal(result, action_mask)",                                  # for EVERY exploration draw
-                        "implies(up, best_legal(result, Vec_q, action_mask))"],       # policy branch: best legal action
+                        "implies(up, best_legal(result, Vec_q, action_mask))",        # policy branch: best legal action
+                        "implies(epsilon == 0, best_legal(result, Vec_q, action_mask))"],   # exploration switched off: for EVERY draw, incl. exactly 0.0
                replay="c14:dqn")
     P.specns["Vec_q"] = Vec(NA, Q, "q_values")
 
@@ -211,6 +224,14 @@ def build(tier):
     class ObsRow:
         def length(self, ex, st):
             return 1
+
+        def getattr(self, ex, st, name):
+            if name == "size":
+                return Fn(model=lambda ex, st, a, k: 1, name="size")          # one generic batch row
+            raise Undecided(f"observation attribute {name}")
+
+        def isinstance(self, ex, st, names):
+            return "Tensor" in names
     P.lib.update({"numpy.ma.array": ma_array, "numpy.argmax": np_argmax, "numpy.where": np_where, "numpy.asarray": lambda ex, st, a, k: a[0],
                   "numpy.random.uniform": lambda ex, st, a, k: rand_like(ex, st, [Vec(NA, Q, "shape")], {}),
                   "numpy.random.randint": lambda ex, st, a, k: [_randint(st, a[0], a[1])],
@@ -305,7 +326,7 @@ def build(tier):
         P.contract(q, variant="box", region=body,
                    params={"self": ma_self(cls, False), "obs": "opaque", "infos": "opaque", "training": "bool", "idx": "int", "agent_id": (lambda ex, st, l: "agent_0"),
                            "actor": (lambda ex, st, l: ActorModel(Vec(D, ACT, "actor_out"))), "action_dict": (lambda ex, st, l: {})},
-                   requires=["in_box(actor_box, low, high)"], frame_fields=False,
+                   requires=[], frame_fields=False,            # whatever the actor outputs (no squashing head, saturated rescaling): clipped in both modes
                    ensures=["in_box(action_dict[agent_id], low, high)"], replay="c14:ma_box")
         # discrete: scores are clamped to [0, 1] in training; the index is then taken among unmasked entries only
         P.contract(q, variant="discrete-scores", region=body,
@@ -367,16 +388,15 @@ def build(tier):
     P.specns.update(dict(tanh_range=lambda v: in_box(v, Vec(v.n, z3.K(z3.IntSort(), z3.RealVal(-1)), "-1"), Vec(v.n, z3.K(z3.IntSort(), z3.RealVal(1)), "1")),
                          squash_output=z3.Bool("squash_output"), training_flag=z3.Bool("training_flag")))
     P.contract("agilerl.algorithms.ppo.PPO.get_action", variant="eval-box",
-               region=region("if isinstance(self.action_space, spaces.Box) and self.action_space.shape == (1,)", "if not self.training and isinstance(self.action_space, spaces.Box)"),
+               region=region("action = action.cpu().data.numpy()", "if not self.training and isinstance(self.action_space, spaces.Box)"),
                params={"self": ppo_self, "obs": "opaque", "action_mask": "opaque", "action": (lambda ex, st, l: Vec(D, ACT, "policy_out"))},
-               requires=["implies(squash_output, tanh_range(action))"], frame_fields=False,
+               requires=[], frame_fields=False,                # clipped after the rescaling as well
                ensures=["implies(not training_flag, in_box(action, low, high))"], replay="c14:pg_eval")
     P.trusted += ["numpy.ma.array(values, mask) + numpy.argmax: masked entries are ignored when at least one entry is unmasked; numpy.where; "
                   "numpy.random.uniform in [0,1), numpy.random.randint(lo, hi) in [lo, hi), random.random() in [0,1)"]
     P.assumptions += ["network outputs are finite reals; masks are 0/1 with at least one legal action; low <= high component-wise",
                       "accelerator is None"]
-    P.uncovered += ["with epsilon = 0 the policy branch is taken iff the uniform draw is > 0 (a draw of exactly 0.0 explores): "
-                    "'exploration switched off' is read as 'the policy branch is taken'",
+    P.uncovered += ["CQN / Rainbow: 'exploration switched off' is read as 'the policy branch is taken' (DQN: proved for epsilon = 0 and every draw)",
                     "IPPO evaluation clipping (same two statements as PPO, native only); MADDPG/MATD3 env-defined actions and agent masks (native adapters / not covered)",
                     "batch shape of the returned array"]
     return P
